@@ -12,7 +12,9 @@ from pico8.game import file as gfile
 from pico8.game import game as ggame
 from pico8 import util
 
-ENCODED = ['pico8.build.build.do_build']
+ENCODED = ['pico8.build.build.do_build',
+           'pico8.tool.main / _get_argparser (cli harness)',
+           'pico8.game.formatter.p8.P8Formatter.from_file / to_file (cli harness)']
 ASSUMPTIONS = [
     'file.from_file / file.to_file / Game.make_empty_game are replaced by '
     'stubs handing out carts whose six sections and label are distinct '
@@ -22,8 +24,8 @@ ASSUMPTIONS = [
     'configuration): which source each section names, the --empty flags, '
     'whether OUT exists and its format, and one injected argument fault',
 ]
-OUTSIDE = ['argument parsing by argparse (tool.py) - do_build is called with '
-           'the namespace it would produce']
+OUTSIDE = ['.p8.png sources / OUT in the cli harness (scenario harness only); '
+           'more than three free sections at once in the cli harness']
 
 SECTIONS = ('lua', 'gfx', 'gff', 'map', 'sfx', 'music')
 
@@ -178,6 +180,8 @@ def cart_text(tag, label=False):
         d[len(d) - 1] = (tag + 7 * i) % 128
     if label:
         g.label._data[3] = tag
+    else:
+        g.label = None
     out = hx.MemStream()
     P8Formatter.to_file(g, out, filename='x.p8')
     return out.getvalue()
